@@ -223,7 +223,7 @@ class IRSpec:
                 else:
                     names = [target]
                 if v[0] != 'ref':
-                    table = {'set': ['set'], 'int': ['int', 'bool'], 'str': ['str'], 'dict': ['dict_empty', 'pdict']}
+                    table = {'set': ['set'], 'int': ['int', 'bool'], 'str': ['str'], 'dict': ['dict_empty', 'pdict', 'memo']}
                     return cont(s, B(BoolVal(any(v[0] in table.get(n, []) for n in names))))
                 ir = [n for n in names if n in IR_CLASSES]
                 if any(n == 'self.Direction' for n in names):
@@ -292,7 +292,8 @@ class IRSpec:
         if fname in ('str', 'repr'):
             return cont(st, ('str', '?'))
         if fname in ('deepcopy', 'copy'):
-            return se.ev(st, e.args[0], cont)
+            # values of the abstract domain are immutable; a copied list must not alias the slot it was read from
+            return se.ev(st, e.args[0], lambda s, v: cont(s, ('list', v[1], None) if v[0] == 'list' else v))
         if fname == 'bool':
             return se.ev(st, e.args[0], lambda s, v: cont(s, B(se.truth(s, v))))
         if fname == 'OuterPin.from_instance_and_inner_pin' or fname == 'OuterPinExtended':
